@@ -366,6 +366,7 @@ class Ctx:
         self.harness = None
         self.t0 = time.time()
         self.known, self.fixed = load_known_findings()
+        self.hangs = []
 
     def kf_classes(self):
         return {k["class"]: k["what"] for k in self.known if k["property"] == self.pid}
@@ -375,6 +376,16 @@ class Ctx:
             ops = (corpus_ops(self.pid, stream) if corpus else []) + harness_gen(
                 self.harness, stream, self.seed if seed is None else seed, n, self.tier, extra_gen)
         impl = harness_run_parallel(self.harness, stream, ops, parallel) if parallel else harness_run(self.harness, stream, ops)
+        if "hang" in impl and not parallel:
+            # an operation that never returned (the harness answers "hang" after its deadline and ends): the history since the
+            # stream's last reset is the replay
+            i = impl.index("hang")
+            j = i
+            while j > 0 and " reset" not in ops[j] and i - j < 2000:
+                j -= 1
+            self.hangs.append((stream, ops[j:i + 1]))
+        elif "hang" in impl:
+            self.hangs.append((stream, [ops[impl.index("hang")]]))
         model = driver_run(ops) if with_model else [None] * len(ops)
         return StreamRun(ops, impl, model)
 
@@ -471,6 +482,10 @@ def main(argv):
             import traceback
             traceback.print_exc()
             res.violation("check-error", "the exploration could not be completed: %r" % (e,), [repr(e)], False)
+        for stream, hist in ctx.hangs:
+            res.violations.insert(0, dict(kind="hang", what="%s: the last operation of this history did not return (no answer within the "
+                                          "operation deadline: deadlock or endless wait); the operations behind it could not be run" % pid,
+                                          replay=hist, found_input=True))
 
     # 7. classify
     rc = 0
